@@ -92,6 +92,7 @@ theorem defaultOf_good (t : Ty) : GoodInit (defaultOf t) := by
   cases t
   · exact ⟨rfl, rfl, _, rfl⟩
   · exact ⟨rfl, rfl, _, rfl⟩
+  · exact ⟨rfl, rfl, _, rfl⟩
 
 theorem facts_new {P : Expr → Prop} {acc : TopAcc} {x : String} {t : Ty} {e' : Expr} (l : List Stmt)
     (hl : acc.te.lookup x = none) (hnf : P e') :
